@@ -94,6 +94,7 @@ func main() {
 	entries = append(entries, testdataEntries(repoAbs)...)
 	entries = append(entries, stdEntries(repoAbs)...)
 	entries = append(entries, randomEntries(*seed, *count)...)
+	entries = append(entries, boundaryEntries()...)
 	entries = append(entries, probeEntries()...)
 	for _, e := range entries {
 		e.rep = &entryReport{Name: e.name, Source: e.source, Determinism: "-", Compiles: "-", Expect: e.expect}
